@@ -1366,3 +1366,40 @@ Proof.
   - apply Permutation_refl.
   - exact H.
 Qed.
+
+(* ------------------------------------------------------------------ direct mode (--nsqd-http-address) *)
+(* GetNSQDTopicProducers: the producers of a topic are the configured nsqds whose /stats answers
+   and lists the topic and whose /info answers; an nsqd whose /stats (or, having the topic,
+   /info) fails is a failed upstream; 502 iff all of them are *)
+Definition direct_pinfo (ad : bytes) (i : prod) : pinfo :=
+  let i' := match pr_bcast i with
+            | [] => mkProd (host_of ad) (port_of ad) (pr_tcp i) (pr_host i) [] (pr_version i) [] []
+            | _ => i end in
+  mkP (http_addr i') (match pr_host i' with [] => host_of ad | h => h end).
+
+Theorem direct_topic_producers_spec : forall t ups,
+  let f := map (direct_topic_fetch t) ups in
+  (stage1_producers (SDirectTopic t ups) = AHard <-> forall u, In u f -> failed u = true) /\
+  (forall v n, stage1_producers (SDirectTopic t ups) = AOk v n ->
+     n = nfailed f /\
+     forall p, In p v <-> exists ad d i, In (ad, d) ups /\ dn_stats_ok d = true /\ smem t (dn_topics d) = true /\
+                                        dn_info d = Some i /\ p = direct_pinfo ad i).
+Proof.
+  intros t ups. cbv zeta. simpl stage1_producers.
+  destruct (partial_view _ (fun ans : list (bytes * list pinfo) => flat_map snd ans) (map (direct_topic_fetch t) ups)) as [Hh Ho].
+  cbv zeta in Hh, Ho. split. exact Hh.
+  intros v n H. destruct (Ho v n H) as [_ [Hn _]]. split. exact Hn.
+  unfold error_rule in H. destruct (Nat.eqb _ _); [discriminate|]. inversion H; subst v. clear H.
+  intro p. rewrite in_flat_map. split.
+  - intros [[ad ps] [Hu Hp]]. apply in_answers in Hu. apply in_map_iff in Hu. destruct Hu as [[ad' d] [He Hi]].
+    unfold direct_topic_fetch in He. simpl in He. inversion He as [[Ha Hf]]. subst ad'.
+    destruct (dn_stats_ok d) eqn:Es; simpl in Hf; [|discriminate].
+    destruct (smem t (dn_topics d)) eqn:Et; simpl in Hf.
+    + destruct (dn_info d) as [i|] eqn:Ei; [|discriminate]. inversion Hf; subst ps. simpl in Hp.
+      destruct Hp as [Hp|[]]. exists ad, d, i. repeat split; try assumption. symmetry. exact Hp.
+    + inversion Hf; subst ps. contradiction.
+  - intros [ad [d [i [Hi [Es [Et [Ei Hp]]]]]]]. exists (ad, [p]). split.
+    + apply in_answers. apply in_map_iff. exists (ad, d). split; [|exact Hi].
+      unfold direct_topic_fetch. simpl. rewrite Es, Et, Ei. simpl. subst p. reflexivity.
+    + left. reflexivity.
+Qed.
